@@ -615,7 +615,20 @@ void op_union(Ctx<T>& c, const Op& op) {
       check_sketch_union(mid, tmp, dup, "union intermediate result");
     }
   }
-  var_opt_sketch<T> res = safe_get_result(u, u_deser_sampling);
+  // the union's state is a value: it travels through a union with ANOTHER history (fresh, fed, or fed and reset) by copy and by move
+  // assignment, in either order, before the result is taken - everything below is checked on the assigned union
+  // (exactly one assignment: a second one back into u would restore whatever the first one failed to carry)
+  std::unique_ptr<var_opt_union<T>> other;
+  const var_opt_union<T>* up = &u;
+  if ((mode >> 11) & 1) {
+    other.reset(new var_opt_union<T>(static_cast<uint32_t>(1 + (mode >> 12) % 40)));
+    if ((mode >> 13) & 1) { try { other->update(c.slots[in[nin - 1]].sk); } catch (const std::logic_error&) {} if ((mode >> 15) & 1) other->reset(); }
+    if ((mode >> 14) & 1) *other = u;
+    else { var_opt_union<T> tmp(u); *other = std::move(tmp); }
+    up = other.get();
+    G->labels.insert("union-assigned");
+  }
+  var_opt_sketch<T> res = safe_get_result(*up, u_deser_sampling);
   if (u_deser_sampling) rm.deser_key = K_DESER_U;
   Obs ro = check_sketch_union(res, rm, dup, "union result");
   if (ro.r > 0) {
@@ -827,7 +840,7 @@ rc::Gen<Case> gen_main() {
       {2, op2("ser", slot, range(0, 255))},
       {1, op3("copy", range(0, 3), range(0, 3), range(0, 2))},
       {1, rc::gen::map(range(0, 99), [](int64_t x) { return x < 50 ? Op{"reset", {x & 3, (x >> 2) & 3}} : Op{"upd", {x & 3, 9}}; })},
-      {5, op4("uni", range(0, 7), range(0, 1 << 30), range(0, 2047), range(0, 3))},
+      {5, op4("uni", range(0, 7), range(0, 1 << 30), range(0, 65535), range(0, 3))},
   });
   return make_case({{"k0", k_gen()}, {"k1", k_gen()}, {"k2", k_gen()}, {"k3", k_gen()},
                     {"rf", range(0, 3)},
